@@ -30,7 +30,7 @@ META = {
     ),
     "assumptions": ["'handed its completion record' = the call of ExecutionState.create_checkpoint with the CONTEXT SUCCEED/FAIL update"],
     "budget": {
-        "quick": {"shards": 4, "random_cases": 200, "sweep_limit": 700, "min_nontrivial": 40},
+        "quick": {"shards": 4, "random_cases": 200, "sweep_limit": 2500, "min_nontrivial": 40},
         "thorough": {"shards": 16, "random_cases": 6000, "sweep_limit": 5000, "min_nontrivial": 1800},
     },
 }
@@ -200,6 +200,10 @@ def _sweep_stage(ctx):
                 "plan": {"crashes": []}, "line": line}
         WC.line_preempt_sweep(ctx, base, PROPS, nontrivial=nontrivial, classes=lambda r, c: ["one-long-preemption-at-a-line"] + classes(r, c),
                               limit=ctx.budget.get("sweep_limit", 700), label=f"one long preemption per line of {'/'.join(line)}: {label}")
+        # the same with the preempted task descheduled for 0.3 virtual seconds: siblings finish, batches leave and the
+        # parent completes while it sits between two statements (e.g. between "validated" and "enqueued")
+        WC.line_preempt_sweep(ctx, base, PROPS, nontrivial=nontrivial, classes=lambda r, c: ["one-long-preemption-at-a-line", "stalled-preemption"] + classes(r, c),
+                              limit=ctx.budget.get("sweep_limit", 700), stall=0.3, label=f"one long preemption (stall 0.3 s) per line of {'/'.join(line)}: {label}")
 
 
 install(globals(), props=("C10",), cases=cases, nontrivial=nontrivial, classes=classes, stages=(_big_stage, _sweep_stage))
